@@ -766,6 +766,7 @@ class Executor:
         if isinstance(c, bool):
             self.goto(st, lab_t if c else lab_f)
             return
+        c = sym.bz(cond)      # keep the raw term in the path condition (subterm sharing with the oracle matters)
         check = st.visits.get((fr.fn.name, fr.lab), 0) > self.LOOP_CHECK
         ft = ff = True
         if check:
@@ -1151,6 +1152,32 @@ def klz(x, w):
     return 0
 
 
+def ksb(x, w):
+    """number of leading bits statically known to equal the sign bit (>= 1)"""
+    if isinstance(x, int):
+        v = sym.sgn(x, w)
+        n = (v if v >= 0 else ~v).bit_length()
+        return w - n
+    try:
+        k = x.decl().kind()
+    except Exception:
+        return 1
+    if k == z3.Z3_OP_BNUM:
+        return ksb(x.as_long(), w)
+    ch = x.children()
+    if k == z3.Z3_OP_SIGN_EXT:
+        n = x.params()[0]
+        return n + ksb(ch[0], w - n)
+    if k == z3.Z3_OP_ZERO_EXT:
+        return max(1, x.params()[0])
+    if k == z3.Z3_OP_BASHR and z3.is_bv_value(ch[1]):
+        return min(w, ksb(ch[0], w) + ch[1].as_long())
+    if k == z3.Z3_OP_ITE:
+        return min(ksb(ch[1], w), ksb(ch[2], w))
+    z = klz(x, w)
+    return max(1, z)
+
+
 def _sign(x, w):
     return z3.Extract(w - 1, w - 1, bv(x, w))
 
@@ -1159,7 +1186,7 @@ def _add_sov(x, y, w):
     if isinstance(x, int) and isinstance(y, int):
         s = sym.sgn(x, w) + sym.sgn(y, w)
         return not (-(1 << (w - 1)) <= s < (1 << (w - 1)))
-    if klz(x, w) >= 2 and klz(y, w) >= 2:
+    if ksb(x, w) >= 2 and ksb(y, w) >= 2:
         return False
     r = bv(x, w) + bv(y, w)
     return z3.And(_sign(x, w) == _sign(y, w), _sign(r, w) != _sign(x, w))
@@ -1169,7 +1196,7 @@ def _sub_sov(x, y, w):
     if isinstance(x, int) and isinstance(y, int):
         s = sym.sgn(x, w) - sym.sgn(y, w)
         return not (-(1 << (w - 1)) <= s < (1 << (w - 1)))
-    if klz(x, w) >= 1 and klz(y, w) >= 1:
+    if ksb(x, w) >= 2 and ksb(y, w) >= 2:
         return False
     r = bv(x, w) - bv(y, w)
     return z3.And(_sign(x, w) != _sign(y, w), _sign(r, w) != _sign(x, w))
@@ -1183,7 +1210,7 @@ def _mul_ov(x, y, w, signed):
         return x * y > M(w)
     kx, ky = klz(x, w), klz(y, w)
     if signed:
-        if kx >= 1 and ky >= 1 and kx + ky >= w + 1:
+        if ksb(x, w) + ksb(y, w) >= w + 2:
             return False
         p = z3.SignExt(w, bv(x, w)) * z3.SignExt(w, bv(y, w))
         return p != z3.SignExt(w, z3.Extract(w - 1, 0, p))
